@@ -164,6 +164,56 @@ def find_yield(fn: ast.FunctionDef, chunk_id: bytes) -> Optional[ast.expr]:
     return None
 
 
+def subst_locals(fn: ast.FunctionDef, expr: ast.expr, depth: int = 4) -> ast.expr:
+    """Copy of `expr` with every local name that `fn` assigns exactly once (`name = rhs`, before the use,
+    not in a loop, never aug-assigned / deleted / used as a loop or with target) replaced by its rhs."""
+    import copy
+    assigned: Dict[str, list] = {}
+    loop_span: Dict[str, Tuple[int, int]] = {}     # name -> line span of the innermost loop that assigns it
+    loop_targets = set()
+    for n in walk_no_nested(fn):
+        if isinstance(n, (ast.For, ast.While, ast.AsyncFor)):
+            if not isinstance(n, ast.While):
+                for m in ast.walk(n.target):
+                    if isinstance(m, ast.Name):
+                        loop_targets.add(m.id)
+            for st in n.body + n.orelse:
+                for m in ast.walk(st):
+                    if isinstance(m, ast.Name) and isinstance(m.ctx, (ast.Store, ast.Del)):
+                        span = (n.lineno, getattr(n, "end_lineno", n.lineno))
+                        old = loop_span.get(m.id)
+                        if old is None or (span[0] >= old[0] and span[1] <= old[1]):
+                            loop_span[m.id] = span
+        if isinstance(n, ast.Name) and isinstance(n.ctx, (ast.Store, ast.Del)):
+            assigned.setdefault(n.id, []).append(n)
+    single: Dict[str, ast.Assign] = {}
+    for n in walk_no_nested(fn):
+        if isinstance(n, ast.Assign) and len(n.targets) == 1 and isinstance(n.targets[0], ast.Name):
+            name = n.targets[0].id
+            if len(assigned.get(name, [])) == 1 and name not in loop_targets:
+                single[name] = n
+
+    class Sub(ast.NodeTransformer):
+        def __init__(self, d):
+            self.d = d
+
+        def visit_Name(self, node):
+            a = single.get(node.id)
+            span = loop_span.get(node.id)
+            use_line = getattr(node, "lineno", None)
+            if span is not None and not (use_line is not None and span[0] <= use_line <= span[1]):
+                return node          # assigned in a loop, used outside it
+            if isinstance(node.ctx, ast.Load) and a is not None and a.lineno < getattr(node, "lineno", a.lineno + 1) and self.d > 0:
+                new = copy.deepcopy(a.value)
+                for m in ast.walk(new):
+                    if hasattr(m, "lineno"):
+                        m.lineno = node.lineno
+                        m.end_lineno = node.lineno
+                return Sub(self.d - 1).visit(new)
+            return node
+    return Sub(depth).visit(copy.deepcopy(expr))
+
+
 def check_pack_pair(repo: Repo, rep, P: str, rule: str, writer_ci: ClassInfo, writer_fn: str, chunk_id: bytes,
                     reader_ci: ClassInfo, widths: Dict[str, int], obj_prefix=("self", "object")):
     """`pack(FMT, EXPR(self.a, self.b))` in the writer vs the statements of `process_<ID>` in the reader."""
@@ -171,6 +221,10 @@ def check_pack_pair(repo: Repo, rep, P: str, rule: str, writer_ci: ClassInfo, wr
     cid = chunk_id.decode().strip()
     wconstruct = f"{writer_ci.file.rel}:{writer_ci.qualname}.{writer_fn}[{cid}]"
     payload = find_yield(wfn, chunk_id)
+    if payload is not None:
+        line = payload.lineno
+        payload = subst_locals(wfn, payload)
+        payload.lineno = line
     if payload is None:
         rep.violation(f"{P}.{rule}", wconstruct, f"yield b'{cid}', ...",
                       f"writer no longer emits {cid}", f"{writer_ci.file.rel}:{wfn.lineno}")
